@@ -2,13 +2,16 @@
 // One case per input line (integers, same encoding as the Coq model SGV.Kernel.Engine.run_eng):
 //   k p n  (tick = 2^-k s, precision/timing = p ticks, n actors)  then per actor:  nops  op...
 //   op = 1 d (sleep_for d) | 3 h d (exec_async: activity h, natural duration d, alone on host X<h>) | 4 h t (wait_for; t<0 = wait)
-//      | 5 t m h1..hm (ActivitySet::wait_any_for) | 6 a t (join; t = -1 join()) | 7 a (kill) | 8 (kill_all) | 9 a t (set_kill_time
-//      absolute date t) | 10 (daemonize) | 11 c (on_exit callback c) | 12 a (suspend) | 13 a (resume) | 14 (exit) | 15 (yield)
+//      | 5 t m h1..hm (ActivitySet::wait_any_for) | 6 a t (join; t = -1 join()) | 7 a (kill) | 8 (kill_all) | 9 t (self()->set_kill_time,
+//      absolute date t, once per actor) | 10 (daemonize) | 11 c (on_exit callback c) | 12 a (suspend) | 13 a (resume) | 14 (exit) | 15 (yield)
 //      | 16 h t (wait_for_or_cancel)
 // Each case runs in a forked child (the engine is a singleton). Output line: entries separated by " | ":
 //   R pid opidx t0 t1 res      an operation returned (t0/t1 = Engine::get_clock() before/after, %.17g)
 //   X pid c t failed           on_exit callback c ran
 //   A h start finish           Exec::get_start_time / get_finish_time read after a successful wait
+//   T pid t                    Actor::on_termination
+// Operations the interpreter rejects (unknown / foreign activity, unknown actor, duplicate activity id, negative
+// duration, join timeout < 0 other than -1, second set_kill_time) execute this_actor::yield() and return -9.
 // or "CRASH <what>" when the child died.
 #include "drv.hpp"
 #include <simgrid/Exception.hpp>
@@ -28,6 +31,8 @@ struct Op {
 static double tick;
 static std::vector<std::vector<Op>> progs;
 static std::map<long long, sg4::ExecPtr> acts;
+static std::map<long long, long> owner;
+static std::map<long, bool> kset;
 static std::map<long long, sg4::ActorPtr> actors;
 static FILE* out;
 
@@ -45,26 +50,32 @@ static void actor_code(int me)
     double t0      = sg4::Engine::get_clock();
     long long res  = 0;
     bool log_it    = true;
+    auto bad       = [&]() { sg4::this_actor::yield(); res = -9; };
+    auto mine      = [&](long long h) { return acts.count(h) && owner[h] == pid; };
     switch (o.code) {
       case 1:
         sg4::this_actor::sleep_for(o.a[0] * tick);
         break;
       case 3: {
         long long h = o.a[0];
+        if (acts.count(h) || o.a[1] < 0) {
+          bad();
+          break;
+        }
         auto* host  = sg4::Host::by_name("X" + std::to_string(h));
         auto e      = sg4::Exec::init()->set_flops_amount(o.a[1] * tick * host->get_speed())->set_host(host);
         e->start();
-        acts[h] = e;
+        acts[h]  = e;
+        owner[h] = pid;
         break;
       }
       case 4:
       case 16: {
-        auto it = acts.find(o.a[0]);
-        if (it == acts.end()) {
-          res = -9;
+        if (not mine(o.a[0])) {
+          bad();
           break;
         }
-        sg4::ExecPtr e = it->second;
+        sg4::ExecPtr e = acts[o.a[0]];
         try {
           double to = o.a[1] < 0 ? -1.0 : o.a[1] * tick;
           if (o.code == 4)
@@ -86,12 +97,16 @@ static void actor_code(int me)
       case 5: {
         sg4::ActivitySet set;
         std::vector<long long> hs;
+        bool ok = true;
+        for (size_t j = 2; j < o.a.size(); j++)
+          ok = ok && mine(o.a[j]);
+        if (not ok) {
+          bad();
+          break;
+        }
         for (size_t j = 2; j < o.a.size(); j++) {
-          auto it = acts.find(o.a[j]);
-          if (it != acts.end()) {
-            set.push(it->second);
-            hs.push_back(o.a[j]);
-          }
+          set.push(acts[o.a[j]]);
+          hs.push_back(o.a[j]);
         }
         try {
           double to = o.a[0] < 0 ? -1.0 : o.a[0] * tick;
@@ -110,7 +125,11 @@ static void actor_code(int me)
       case 6: {
         auto it = actors.find(o.a[0]);
         if (it == actors.end()) {
-          res = -9;
+          bad();
+          break;
+        }
+        if (o.a[1] < -1) {
+          bad();
           break;
         }
         if (o.a[1] == -1)
@@ -122,7 +141,7 @@ static void actor_code(int me)
       case 7: {
         auto it = actors.find(o.a[0]);
         if (it == actors.end()) {
-          res = -9;
+          bad();
           break;
         }
         it->second->kill();
@@ -131,15 +150,14 @@ static void actor_code(int me)
       case 8:
         sg4::Actor::kill_all();
         break;
-      case 9: {
-        auto it = actors.find(o.a[0]);
-        if (it == actors.end()) {
-          res = -9;
+      case 9:
+        if (kset[pid]) {
+          bad();
           break;
         }
-        it->second->set_kill_time(o.a[1] * tick);
+        kset[pid] = true;
+        sg4::Actor::self()->set_kill_time(o.a[0] * tick);
         break;
-      }
       case 10:
         sg4::Actor::self()->daemonize();
         break;
@@ -153,7 +171,7 @@ static void actor_code(int me)
       case 12: {
         auto it = actors.find(o.a[0]);
         if (it == actors.end()) {
-          res = -9;
+          bad();
           break;
         }
         it->second->suspend();
@@ -162,7 +180,7 @@ static void actor_code(int me)
       case 13: {
         auto it = actors.find(o.a[0]);
         if (it == actors.end()) {
-          res = -9;
+          bad();
           break;
         }
         it->second->resume();
@@ -175,7 +193,7 @@ static void actor_code(int me)
         sg4::this_actor::yield();
         break;
       default:
-        res = -8;
+        bad();
     }
     if (log_it)
       emit_ret(pid, i, t0, sg4::Engine::get_clock(), res);
@@ -197,8 +215,8 @@ static int run_case(const std::vector<long long>& v)
       o.code = (int)next();
       int ar = 0;
       switch (o.code) {
-        case 1: case 7: case 11: case 12: case 13: ar = 1; break;
-        case 3: case 4: case 6: case 9: case 16: ar = 2; break;
+        case 1: case 7: case 9: case 11: case 12: case 13: ar = 1; break;
+        case 3: case 4: case 6: case 16: ar = 2; break;
         case 5: {
           long long t = next(), m = next();
           o.a = {t, m};
@@ -235,6 +253,7 @@ static int run_case(const std::vector<long long>& v)
     auto act  = e.add_actor("a" + std::to_string(a + 1), hs[a], [me]() { actor_code(me); });
     actors[act->get_pid()] = act;
   }
+  sg4::Actor::on_termination_cb([](sg4::Actor const& a) { fprintf(out, "T %ld %.17g | ", (long)a.get_pid(), sg4::Engine::get_clock()); });
   e.run();
   fprintf(out, "E %.17g", sg4::Engine::get_clock());
   fflush(out);
